@@ -92,6 +92,12 @@ bool buffer::copy(const buffer &from)
 	if (&from == this) {
 		return true;
 	}
+	/* elements with finalizer but without copy constructor can not be
+	 * duplicated: a raw copy would make both buffers owner of the same entities */
+	const struct type_traits *traits = from._content_traits;
+	if (from._used && traits && traits->fini && !traits->init) {
+		return false;
+	}
 	if (mpt_buffer_set(this, from._content_traits, 0, &from + 1, from._used) < 0) {
 		return false;
 	}
